@@ -78,6 +78,16 @@ def r1(ctx):
                 ctx.ok(R, k, t["s"], "result is the function's return value")
                 continue
             us = _uses(b, dl)
+            if us and b.id == STEP and t.get("t") is not None:
+                # ... on every path: `flag = flag && result?` evaluates the `?` only while the flag is still true - the error of a later client
+                # is dropped behind an unfinished one. Every path from the call to the end of the iteration (or of the function) reads the result
+                ub = [x[1] for x in us]
+                ends = b.exits(("return",)) + [x for x, t2 in b.calls(re.compile(r"Iterator>::next$|^std::iter::Iterator::next$")) if x in b.reachable(t["t"])]
+                leaks = always_passes(b, ub, to_blocks=ends, frm=t["t"])
+                if leaks:
+                    ctx.bad(R, k, t["s"], f"the Result of `{t['f']}` in `{b.id}` is looked at on some paths only (a `?` behind a short-circuit): an Err returned by a client "
+                            "that is ticked after a still-running one is never propagated - its handle is consumed, the client counts as finished and run() returns Ok")
+                    continue
             if us:
                 ctx.ok(R, k, t["s"], f"result consumed ({us[0][0]})")
             elif b.id in allow:
